@@ -37,6 +37,10 @@ CLAIMED = {
             "Seeded exploration with the wall clock as a fault dimension: a JWT-guarded application (HS256/384/512, generated secrets, fang at root / on a mount / local) receives 2..10 requests on a keep-alive connection (sometimes reconnecting), each with a generated token (issued by the same configuration, model-signed with arbitrary payloads/headers, every kind of mutation and forgery of the statement) while the simulated wall clock (hook K1) is set to an instant chosen around the token's exp/nbf/iat, jumping forwards and backwards between requests; an independent token model (own base64url and HMAC construction) decides admit/refuse at that instant and the echoed payload must equal the signed one.",
             "Trusts the sha2 crate's hash functions (HMAC construction and base64url are re-implemented); non-numeric time claims are open; `bearer` in another case is checked one way only.",
             "reference token model evaluated at the simulated clock; clock jump/skew injection"),
+    "C13": ("DESIGN.md 5.C13",
+            "Seeded exploration: a BasicAuth-guarded application (single pair or array of 1..5 pairs with Unicode, colons in passwords, empty parts, prefix-related pairs; fang at root / on a mount / local) receives 2..10 requests on a keep-alive connection with generated Authorization values (correct, mixed pairs, prefix/suffix variants, other schemes, invalid base64, base64 of non-UTF-8 bytes with the invalid byte first/middle/last, missing; a correct request followed by one without the header on the same connection); an independent credential model decides and 401 + `WWW-Authenticate: Basic` is required for every refusal. Only connection reuse is a live simulator dimension here (stated in DESIGN.md): the deciding power is seeded generation against the model on the real server.",
+            "Trusts the base64 crate for the model's decoding; `basic` in another case and unpadded base64 are checked one way only.",
+            "reference credential model on live keep-alive connections"),
     "C17": ("DESIGN.md 5.C17",
             "Seeded exploration over producer schedules: 1..3 concurrent SSE connections, each driven by a generated producer script (sends of arbitrary Unicode text incl. LF/CR/CRLF/field look-alikes/NUL/BOM, bursts before a yield, self-waking yields, timer sleeps, completion with empty or non-empty queue) through DataStream::new (QueueStream), DataStream::from(custom Stream) and Response::with_stream, read over sockets with tape-chosen windows, read sizes and pauses (back-pressure between chunks) and short writes; an independent chunked decoder and WHATWG event-stream parser must yield exactly the messages in order with no foreign field, the stream must terminate, and a follow-up request on the same connection must be answered.",
             "Trusts the independent chunked decoder and event-stream parser (DESIGN.md A.7) and the facade's timer/yield semantics.",
